@@ -68,6 +68,13 @@ ROWS = [
  ("C15", "wrong-server/different-org-fid", "fixed", "profile cache file of a client without ORG/FID", "a client without ORG/FID and one whose ORG/FID are the text 'None' (same URL) shared one cache file (str(None)); reported by a seeding sub-agent"),
  ("C18", "persist/version/not-what-was-saved", "fixed", "ofxget tax1099 ignored --write", "'ofxget tax1099 ... --write' (and --savepass) saved nothing: the next run without the options used the old values (also persist/<any option>/not-what-was-saved after a tax1099 run; reported by a seeding sub-agent)"),
  ("C02", "plain/raises-ParseError", "fixed", "XML empty-element tags were read as the start", "an aggregate without children written as an XML empty-element tag (<MEMO/>, legal in OFX 2.x) opened an element 'MEMO/' that nothing closed: the document was refused (also C07: an unknown empty element spelled that way; reported by a seeding sub-agent)"),
+ ("C20", "isin/valid-rejected/real-security", "fixed", "four numbering agencies were keyed by one letter", "NUMBERING_AGENCIES listed Hungary, Russia, Luxembourg and Australia under 'H', 'R', 'L', 'A': no HU/RU/LU/AU ISIN validated (AU000000BHP4 ...), isin_checksum() raised AssertionError for them (also isin/valid-rejected, isin/checksum-raises/AssertionError, isin/agency-key-is-no-prefix; reported by a seeding sub-agent; the check had taken 'known prefix' from the table under test)"),
+ ("C09", "reject/accepted/offset-hours-junk", "fixed", "junk in the hours of a GMT offset", "'[5-3:EST]', '[+-:PST]', '[1-2:EST]' were read as the named zone's offset (the work-around for '[-:CST]' took any text int() refuses); reported by seeding sub-agents"),
+ ("C09", "reject/accepted/offset-hours-out-of-range", "fixed", "the range of GMT offsets was checked with assert", "under python -O '[+15]', '[-13]', '[99]' and minutes beyond 59 were accepted (also reject/accepted/offset-minutes-out-of-range); reported by a seeding sub-agent"),
+ ("C18", "persist/clientuid/not-what-was-saved", "fixed", "the default CLIENTUID wasn't in effect on the first run", "with a default CLIENTUID in the user's file and no section for the nickname yet, the first run signed on without CLIENTUID and the next one with it; reported by a seeding sub-agent"),
+ ("C16", "list-name/hasattr-raises-KeyError", "fixed", "reading the name of a repeated child on an instance raised KeyError", "hasattr(BANKMSGSRSV1(), 'stmttrnrs') / getattr(..., None) raised KeyError for every name under which a class declares repeated children; reported by a seeding sub-agent"),
+ ("C17", "input-mutated/result-depends-on-the-threads-arithmetic-context", "fixed", "reading a decimal with a comma depended on the calling thread", "in a thread whose decimal context does not trap InvalidOperation (decimal.ExtendedContext) '1,23' was refused as 'not a finite number'; reported by three seeding sub-agents"),
+ ("C07", "text/xml/raises-ParseError", "fixed", "an empty CDATA section ran on to the end of the next one", "follow-up of d090e8c: '<FOO><![CDATA[]]></FOO>' (an unknown element with an empty CDATA section) became a ParseError, and had always swallowed everything up to the next ']]>'; reported by a seeding sub-agent, not generated by the checks"),
  ("C06", "caller-string-entity-decoded", "known", None, "a user id / password / account id / ORG / FID... that the CALLER passes and that contains an OFX entity sequence (e.g. password 'a&lt;b' or account 'x&amp;y') is entity-decoded by String.convert() when the request model is built, so the request carries 'a<b' / 'x&y' instead of what was supplied. Not repaired: the decode-on-assignment is by design shared between parsed text and Python values; a repair needs ~20 call sites in Client.py or an API change"),
  ("C15", "wrong-server/same-org-fid-different-url", "fixed", "FI profile cached from one server", "cache keyed by ORG-FID only: client of another URL sent A's DTPROFUP and used A's profile"),
 ]
